@@ -69,6 +69,8 @@ def main():
             return w
         setattr(np.random, fn, mk(orig, fn))
 
+    persist = {}
+
     def run_once():
         h = hashlib.sha256()
 
@@ -96,6 +98,16 @@ def main():
             x = sg.ones(6, 7, requires_grad=True)
             y = d(x); y.sum().backward()
             put(y.data); put(x.grad.data)
+        elif kind == "reseed-existing-model":
+            # the model (with Dropout) exists before manual_seed is called: seeding must still pin its randomness
+            if "model" not in persist:
+                persist["model"] = nn.Sequential(nn.Linear(6, 8), nn.Dropout(0.5), nn.ReLU(), nn.Dropout(0.2), nn.Linear(8, 3))
+                persist["x"] = sg.ones(5, 6)
+                persist["drop"] = nn.Dropout(0.4)
+            sg.manual_seed(spec["manual_seed"])
+            put(persist["model"](persist["x"]).data)
+            put(persist["drop"](sg.ones(4, 9)).data)
+            put(sg.rand(3).data)
         elif kind == "split":
             X = [[i, i + 0.5] for i in range(23)]; y = list(range(23))
             tr, te, va = ns.data.split_dataset(X, y, test_split=0.3, val_split=0.2, shuffle=True)
